@@ -11,24 +11,37 @@ Decides (from the syntax trees of hailtop/aiotools/fs/{fs,stream}.py, aiotools/{
   R3  front end: read_range computes n = end - start + [end_inclusive] and uses open_from(url, start, length=n) + readexactly(n);
       read_from uses open_from(url, start) + read(); open_from never reaches _open_from with length == 0 and otherwise forwards
       (url, start, length=length) unchanged; every readexactly implementation signals UnexpectedEOFError on a short read
-  R0  closure: the set of concrete `_open_from` implementations under hailtop is exactly the analysed one
-Does not decide: server / SDK behaviour for a well-formed request; seeking inside a truncated stream.
+  R0  closure: the set of concrete `_open_from` implementations under hailtop is exactly the analysed one, and every override names
+      its positional parameters in the order of the abstract declaration (callers pass url, start positionally, length by keyword)
+  R4  buffer accounting inside every buffered stream reader under hailtop (engines/c23facts part A): the representation of "unconsumed
+      bytes" is derived from the consumption statements of the class (bytes dropped from the buffer: len(buffer); a position advanced:
+      len(buffer) - pos) and every use - the counts compared with a requested size in refill tests and caps, the slices handed out, the
+      amount consumed, buffer replacement paired with position reset - is compared with that ONE representation in linear normal form;
+      a use written in the other representation makes a read that straddles a chunk boundary come back short (taken for EOF)
+  R5  delivery (engines/c23facts part B): the Range built by `_open_from` (GCS: headers={'Range': ...}; S3: Range=...) and the GCS
+      `alt=media` parameter reach the request primitive: an abstract execution over alias groups follows the keyword dict through every
+      function that may be called (class hierarchy, attribute types from __init__, retry / executor combinators, closures) and reports
+      any statement that replaces the carrying mapping (`kwargs['headers'] = {...}`), overwrites / removes the entry, or stops
+      passing it on, on a path the presence facts do not exclude
+Does not decide: server / SDK behaviour for a well-formed request; seeking inside a truncated stream; transport-level content decoding.
 """
 from __future__ import annotations
 
 import ast
 from typing import Dict, List, Optional, Tuple
 
-from engines import linform, pyfacts as pf, strparts
+from engines import c23facts, linform, pyfacts as pf, strparts
 from engines.common import AnalysisError, Ctx
 
 META = dict(
     category='other',
     text='Sibling agreement across every concrete _open_from: the HTTP Range templates are normalised (string parts + linear normal form of the end offset) on '
          'every CFG path to the request, SDK back ends are checked for passing (offset, length) unchanged at every download call, and the local truncation '
-         'arithmetic and the front-end span arithmetic are compared in linear normal form. Necessary conditions on the request construction only.',
+         'arithmetic and the front-end span arithmetic are compared in linear normal form; the Range carrier is followed (abstract execution over alias groups) from '
+         '_open_from to the request primitive; buffered readers are checked for one consistent representation of their unconsumed bytes. Necessary conditions only.',
     note='Trusted: CPython ast; engines/pyfacts CFG; engines/linform; HTTP Range semantics (inclusive end); azure download_blob(offset, length); file.seek/read.',
-    technique='static analysis: sibling agreement, string-template normalisation, linear normal forms, CFG path enumeration',
+    technique='static analysis: sibling agreement, string-template normalisation, linear normal forms, CFG path enumeration, representation-invariant '
+              'consistency of buffer accounting, abstract execution over alias groups along the may-call chain (def-use of the Range carrier)',
     design_ref='DESIGN.md §3 C23',
 )
 
@@ -95,13 +108,28 @@ def _closure(ctx: Ctx) -> None:
     missing = [k for k in want if k not in found]
     ctx.need(not extra and not missing, f'the set of concrete _open_from implementations changed: unexpected {extra}, missing {missing} (analyse the new back end before claiming C23)')
     ctx.ok('R0', 'hailtop::concrete _open_from implementations', {'implementations': found})
+    # callers pass (url, start) positionally and length by keyword: every override must name its parameters in the declared order
+    decl = pf.load(FS).func('AsyncFS._open_from')
+    dnames = [a.arg for a in decl.args.args][1:]
+    ctx.need(len(dnames) == 2 and [a.arg for a in decl.args.kwonlyargs] == ['length'], f'{FS}::AsyncFS._open_from: declaration changed')
+    for rel, cls in IMPLS.items():
+        m = pf.load(rel)
+        fn = m.func(f'{cls}._open_from')
+        names = [a.arg for a in fn.args.args][1:]
+        cons = f'{rel}::{cls}._open_from::parameter order'
+        if sorted(names[:2]) == sorted(dnames) and names[:2] != dnames:
+            ctx.bad('R0', cons, f'the override takes ({", ".join(names)}) but AsyncFS.open_from / the router call `_open_from(url, start, length=...)` positionally: '
+                    f'`{dnames[0]}` receives the offset and `{dnames[1]}` the URL', m.path, fn.lineno)
+        else:
+            ctx.ok('R0', cons, names)
 
 
 # ------------------------------------------------------------------------------------------------
 # R1 HTTP Range back ends
 # ------------------------------------------------------------------------------------------------
 
-def _range_backend(ctx: Ctx, rel: str, cls: str, request_pred, carrier) -> None:
+def _range_backend(ctx: Ctx, rel: str, cls: str, request_pred, carrier) -> Optional[ast.Call]:
+    """Returns the request call when it carries a Range (for the delivery rule R5)."""
     m = pf.load(rel)
     fn = m.func(f'{cls}._open_from')
     where = f'{rel}::{cls}._open_from'
@@ -118,7 +146,7 @@ def _range_backend(ctx: Ctx, rel: str, cls: str, request_pred, carrier) -> None:
     if val is None:
         ctx.bad('R1', cons + '::sent', f'`{pf.nsrc(req)}` carries no Range: the whole object is returned instead of the bytes from `{start}`', m.path, req.lineno)
         ctx.ok('R1', cons + '::value', 'not evaluated: nothing is sent', nontrivial=False)
-        return
+        return None
     ctx.ok('R1', cons + '::sent', pf.nsrc(val))
 
     # enumerate the paths entry -> request, evaluating the Range variable symbolically
@@ -204,6 +232,7 @@ def _range_backend(ctx: Ctx, rel: str, cls: str, request_pred, carrier) -> None:
     else:
         ctx.need(open_ok and closed_ok, f'{where}: open/closed range cases not both observed')
         ctx.ok('R1', cons + '::value', {'paths': len(results)})
+    return req
 
 
 def _gcs_pred(c: ast.Call) -> bool:
@@ -520,6 +549,39 @@ def _front(ctx: Ctx) -> None:
         live = [r for r in raises if any(n.ast is r and n.id in reach for n in gg.nodes)]
         ctx.check(bool(live), 'R3', f'{rel}::{qual}::short read raises UnexpectedEOFError', 'no reachable `raise UnexpectedEOFError`: a range that ends early is returned as if complete',
                   mm.path, f.lineno)
+        # `data = await self.read(n)` followed by a length test: the test must reject every short read and no complete one
+        nparam = f.args.args[1].arg if len(f.args.args) > 1 else None
+        got = [(k, v[0]) for k, v in pf.assignments(f).items() if len(v) == 1 and isinstance(v[0], ast.expr)]
+        for name, v in got:
+            vv = v.value if isinstance(v, ast.Await) else v
+            if not (isinstance(vv, ast.Call) and pf.dotted(vv.func) == 'self.read' and [pf.nsrc(a) for a in vv.args] == [nparam] and not vv.keywords):
+                continue
+            guards = [x for x in ast.walk(f) if isinstance(x, ast.If) and any(r in x.body for r in raises)]
+            if len(guards) != 1:
+                continue
+            t = guards[0].test
+            cons = f'{rel}::{qual}::short read test'
+            want = linform.sym(f'len({name})') - linform.sym(nparam)
+            ctx.need(isinstance(t, ast.Compare) and len(t.ops) == 1, f'{rel}::{qual}: short-read test `{pf.nsrc(t)}` not recognised')
+            try:
+                if isinstance(t.ops[0], ast.NotEq):
+                    d0 = linform.lin(t.left) - linform.lin(t.comparators[0])
+                    ctx.need(d0 == want or d0 == -want, f'{rel}::{qual}: short-read test `{pf.nsrc(t)}` not recognised')
+                    ctx.ok('R3', cons, pf.nsrc(t))
+                else:
+                    le0 = linform.cmp_le0(t)
+                    if (le0 + want).is_const():  # the test holds when len(data) - n >= c: never for a short read only
+                        ctx.bad('R3', cons, f'`if {pf.nsrc(t)}: raise UnexpectedEOFError` does not hold for a short read (len({name}) < {nparam}): a range that ends early is '
+                                f'returned as if complete', mm.path, guards[0].lineno)
+                        continue
+                    dd = le0 - (want + linform.const(1))
+                    ctx.need(dd.is_const(), f'{rel}::{qual}: short-read test `{pf.nsrc(t)}` not recognised')
+                    ctx.check(dd == linform.const(0), 'R3', cons,
+                              f'`if {pf.nsrc(t)}: raise UnexpectedEOFError` is not `len({name}) < {nparam}`: ' +
+                              (f'a read that is up to {dd.const} byte(s) short is returned as complete' if dd.const > 0 else 'a complete read raises UnexpectedEOFError'),
+                              mm.path, guards[0].lineno, detail=pf.nsrc(t))
+            except AnalysisError as e:
+                raise AnalysisError(f'{rel}::{qual}: short-read test `{pf.nsrc(t)}` not linear ({e})')
     # the blocking implementation loops until n bytes are read
     mm = pf.load(ST)
     f = mm.func('_ReadableStreamFromBlocking._readexactly')
@@ -544,21 +606,119 @@ def _front(ctx: Ctx) -> None:
     ctx.unit('functions', 5)
 
 
+# ------------------------------------------------------------------------------------------------
+# R4 buffer accounting of buffered readers
+# ------------------------------------------------------------------------------------------------
+
+def _buffers(ctx: Ctx) -> None:
+    n_cls = 0
+    for rel in pf.walk_py(SCAN_DIRS):
+        m = pf.load(rel)
+        for cls in m.classes():
+            if not c23facts.read_path(cls):
+                continue
+            n_cls += 1
+            for b in c23facts.buffer_fields(cls):
+                r = c23facts.analyse_buffer(rel, cls, b)
+                if r is None:
+                    continue
+                for c in r.checks:
+                    cons = f'{rel}::{cls.name}::buffer {b}::{c.role}'
+                    if c.ok:
+                        ctx.ok('R4', cons, {'representation': r.rep, 'position': r.cursor, 'detail': c.detail})
+                    else:
+                        ctx.bad('R4', cons, c.message, m.path, c.line)
+                if r.declined and all(c.ok for c in r.checks):
+                    raise AnalysisError(r.declined[0])
+    ctx.unit('reader_classes', n_cls)
+
+
+# ------------------------------------------------------------------------------------------------
+# R5 delivery of the Range (and of alt=media) to the request primitive
+# ------------------------------------------------------------------------------------------------
+
+def _deliver(ctx: Ctx, uni: 'c23facts.Universe', rel: str, cls: str, req: Optional[ast.Call], kwname: str, inner: Optional[str], also_origin: Optional[Tuple[str, str]] = None) -> None:
+    m = pf.load(rel)
+    fn = m.func(f'{cls}._open_from')
+    what = f"{kwname}[{inner!r}]" if inner else kwname
+    cons = f'{rel}::{cls}._open_from::{what} reaches the request'
+    if req is None:
+        ctx.ok('R5', cons, 'not evaluated: no Range is built (see R1)', nontrivial=False)
+        if also_origin:
+            ctx.ok('R5', f'{rel}::{cls}._open_from::{also_origin[0]}[{also_origin[1]!r}] reaches the request', 'not evaluated (see R1)', nontrivial=False)
+        return
+
+    def report(d: 'c23facts.Delivery', cons: str) -> None:
+        ctx.unit('functions_followed', len(d.chain))
+        if d.problems:
+            for p in d.problems:
+                ctx.bad('R5', f'{p.where}::{d._what()} kept', p.text + '. ' + consequence, p.file, p.line, extra={'chain': d.chain})
+        else:
+            ctx.need(d.primitives, f'{cons}: no request primitive reached')
+            ctx.ok('R5', cons, {'chain': d.chain, 'request primitives': d.primitives, 'set at': d.origins or None})
+
+    consequence = ('The storage service then answers with the whole object: a ranged read returns the bytes from offset 0 (right length through readexactly, wrong bytes) '
+                   'or the whole object, e.g. read_range(url, 10, 19) yields object[0:10] instead of object[10:20]')
+    try:
+        d = c23facts.Delivery(uni, kwname, inner)
+        d.start_at_call(rel, m.cls(cls), fn, req, kwname)
+        report(d, cons)
+        if also_origin:
+            k2, i2 = also_origin
+            cons2 = f'{rel}::{cls}._open_from::{k2}[{i2!r}] reaches the request'
+            consequence = 'Without alt=media the JSON API answers with the object metadata instead of its content: every read returns the wrong bytes'
+            fc = c23facts._Fctx(c23facts.FuncRef(rel, m.cls(cls), fn), {})
+            targets = [t for t in d.resolve(fc, req.func, c23facts._St()) if isinstance(t, c23facts.FuncRef)]
+            ctx.need(len(targets) == 1, f'{cons2}: the callee of `{pf.nsrc(req.func)}` is not a single function of the analysed packages')
+            d2 = c23facts.Delivery(uni, k2, i2, origin=True)
+            d2.start_in_function(targets[0], [k.arg for k in req.keywords if k.arg])
+            report(d2, cons2)
+    except c23facts.Decline as e:
+        raise AnalysisError(f'{cons}: {e}')
+
+
 def run(ctx: Ctx) -> None:
     ctx.level = 'other'
     ctx.explanation = ('Every concrete _open_from under hailtop is located (closure scan) and its request construction normalised: Range templates as string parts with the end '
                        'offset in linear normal form on every CFG path, SDK calls for unchanged (offset, length), local truncation and front-end span arithmetic in linear normal form.')
-    ctx.rule('R0', 'the concrete _open_from implementations under hailtop are exactly local, router, GCS, S3, Azure', 1)
+    ctx.rule('R0', 'the concrete _open_from implementations under hailtop are exactly local, router, GCS, S3, Azure, each naming (url, start) in the declared order', 6)
     ctx.rule('R1', 'HTTP Range = bytes={start}- without length and bytes={start}-{start+length-1} with length on every path, and it is sent', 4)
     ctx.rule('R2', 'Azure passes offset/length unchanged at every download_blob; local seeks to start and truncates to length (read capped by limit-offset, offset advances); router delegates unchanged', 9)
     ctx.rule('R3', 'read_range: n = end-start+inclusive, open_from(length=n), readexactly(n); read_from reads to the end; open_from short-circuits length==0 and forwards unchanged; '
-                   'readexactly raises UnexpectedEOFError on short reads', 11)
+                   'readexactly raises UnexpectedEOFError on short reads (test `len(data) != n` / `< n` in linear form)', 12)
     ctx.assume('HTTP Range `bytes=a-b` is inclusive on both ends; azure download_blob(offset, length) returns exactly that span; file.read(n) returns at most n bytes')
-    _closure(ctx)
-    _range_backend(ctx, GCS, 'GoogleStorageAsyncFS', _gcs_pred, _gcs_carrier)
-    _range_backend(ctx, S3, 'S3AsyncFS', _s3_pred, _s3_carrier)
-    _azure(ctx)
-    _local(ctx)
-    _router(ctx)
-    _front(ctx)
+    ctx.rule('R4', 'buffered stream readers use one representation of their unconsumed bytes (len(buffer), or len(buffer) - position) in refill tests, caps, '
+                   'hand-out slices, consumption and reset', 9)
+    ctx.rule('R5', 'the Range built by _open_from (GCS headers / S3 keyword) and GCS alt=media reach the request primitive: no function on the may-call chain replaces, '
+                   'strips or stops forwarding the carrier', 3)
+    ctx.assume('mappings of unknown content merged into the request headers / params (auth headers, default params) do not carry a Range / alt entry; '
+               'decorator-free functions of hailtop are called as written; calls on objects constructed by packages outside hailtop are the request primitives')
+    errors: List[str] = []
+    reqs: Dict[str, Optional[ast.Call]] = {}
+
+    def section(f, *a) -> None:
+        # one unrecognised shape must not hide a violation that another section can establish
+        try:
+            r = f(ctx, *a)
+            if f is _range_backend:
+                reqs[a[0]] = r
+        except AnalysisError as e:
+            errors.append(str(e))
+
+    section(_closure)
+    section(_range_backend, GCS, 'GoogleStorageAsyncFS', _gcs_pred, _gcs_carrier)
+    section(_range_backend, S3, 'S3AsyncFS', _s3_pred, _s3_carrier)
+    section(_azure)
+    section(_local)
+    section(_router)
+    section(_front)
+    section(_buffers)
+    uni = c23facts.Universe()
+    ctx.unit('modules_in_call_universe', len(uni.mods))
+    if GCS in reqs:
+        section(_deliver, uni, GCS, 'GoogleStorageAsyncFS', reqs[GCS], 'headers', 'Range', ('params', 'alt'))
+    if S3 in reqs:
+        section(_deliver, uni, S3, 'S3AsyncFS', reqs[S3], 'Range', None)
     ctx.unit('files', 7)
+    if errors:
+        raise AnalysisError(errors[0] + (f' (+{len(errors) - 1} more: {"; ".join(errors[1:3])})' if len(errors) > 1 else ''))
